@@ -7,7 +7,7 @@ from vf import gen
 
 PID = "C18"
 ANCHORS = ["pyoma2.functions.gen:MAC", "pyoma2.functions.gen:MPC", "pyoma2.functions.gen:MPD", "pyoma2.functions.gen:MCF", "pyoma2.functions.gen:MSF"]
-REQUIRED_MONITORS = ["range@MAC", "range@MPC", "range@MPD", "range@MCF", "shape+symmetry@MAC", "scale-invariance", "collinear-exact",
+REQUIRED_MONITORS = ["mixed-dtype MAC", "range@MAC", "range@MPC", "range@MPD", "range@MCF", "shape+symmetry@MAC", "scale-invariance", "collinear-exact",
                      "MSF(v,cv)=c", "contracts-active-during-SSI-run"]
 CLASSES = ["generic", "nearly_collinear_1e-8", "nearly_collinear_1e-3", "collinear", "collinear_unit_normalised", "collinear_zero_components",
            "collinear_halves", "constant", "isotropic_reference", "sets"]
@@ -229,6 +229,12 @@ def run_vectors(ctx, case, rng):
             ctx.ev("collinear-exact")
             real_v = phi0.real
             mac1 = call(ctx, "MAC", phi, real_v.astype(complex))
+            # the same with the real vector in a real dtype, in either argument position (mixed dtypes)
+            for mm in (call(ctx, "MAC", phi, real_v.copy()), call(ctx, "MAC", real_v.copy(), phi)):
+                ctx.ev("mixed-dtype MAC")
+                if not (np.isfinite(mm) and abs(mm - 1) <= 1e-9):
+                    ctx.fail("MAC:mixed_real_complex_dtype", f"MAC(c*v, v) with v in a real dtype = {mm!r} (c={c:.4g}, n={n}); with v cast to complex: {mac1!r}")
+                    break
             d = describe(phi)
             for nm, got, exp in (("MAC", mac1, 1.0), ("MPC", np.real(vals["MPC"]), 1.0), ("MPD", vals["MPD"], 0.0), ("MCF", np.ravel(vals["MCF"])[0], 0.0)):
                 if np.isnan(got):
@@ -269,6 +275,8 @@ def run_sets(ctx, rng):
     A = rng.standard_normal((n, na)) + 1j * rng.standard_normal((n, na))
     if rng.random() < 0.5 and na >= 1:
         A[:, 0] = X[:, 0] * cfac(rng)
+    if rng.random() < 0.4:
+        X = X.real.copy()  # real-dtype set against a complex-dtype set
     M = call(ctx, "MAC", X, A)
     Mt = call(ctx, "MAC", A, X)
     ctx.ev("shape+symmetry@MAC")
